@@ -16,6 +16,10 @@ Section IndexedSet.
   Variable keyfn : KId -> V -> K.           (* Keyer.GetKey *)
   Variable from_row : R -> V.               (* ValueOps.FromRow (never failing) *)
   Variable update_with_row : R -> V -> V.   (* ValueOps.UpdateWithRow (never failing) *)
+  Variable add_row : R -> V -> V.           (* MultiValueOps.AddRow (never failing) *)
+  Variable delete_row : R -> V -> V.        (* MultiValueOps.DeleteRow (never failing) *)
+  Variable row_view : V -> V.               (* ValueOps.ToRow, the row shown as an element (observation only) *)
+  Variable rows_view : V -> list V.         (* MultiValueOps.ToRows, likewise *)
   Variable keyers : list KId.               (* IndexedSet.Keyers, fixed by NewIndexedSet *)
 
   (* ---------------- MultiMap ---------------- *)
@@ -117,7 +121,10 @@ Section IndexedSet.
   Inductive op :=
   | OpPut (v : V) | OpGet (v : V) | OpGetMany (kid : KId) (k : K) | OpRemove (v : V)
   | OpRemoveMany (kid : KId) (k : K) | OpCount | OpClear | OpVisit
-  | OpInsert (r : R) | OpDelete (r : R) | OpUpdate (old new : R).
+  | OpInsert (r : R) | OpDelete (r : R) | OpUpdate (old new : R)
+  | OpMInsert (r : R) | OpMDelete (r : R) | OpMUpdate (old new : R)   (* MultiInsert / MultiDelete / MultiUpdate *)
+  | OpTruncate                                                         (* IndexedSetTable.Truncate: Count, then Clear *)
+  | OpRows | OpMRows.                                                  (* PartitionRows: ToRows / MultiToRows *)
 
   Inductive obs :=
   | ONone                       (* no result *)
@@ -127,7 +134,19 @@ Section IndexedSet.
   | ORem (x : option V)         (* Remove: Some v (the ARGUMENT, not the stored element) iff found *)
   | OCount (n : nat)
   | OBag (l : list V)           (* VisitEntries: compared as a bag *)
-  | OErr (pk_violation : bool). (* editor result *)
+  | OErr (pk_violation : bool). (* editor result: an error was returned (primary key violation / ErrEntryNotFound) *)
+
+  (* MultiInsert / MultiDelete share one shape: exactly one entry under the row's first-keyer key is replaced by
+     f row entry; otherwise ErrEntryNotFound (true) and nothing changes *)
+  Definition m_change (f : R -> V -> V) (st : iset) (r : R) : iset * bool :=
+    match first_keyer with
+    | None => (st, false)
+    | Some k0 =>
+        match is_get_many st k0 (keyfn k0 (from_row r)) with
+        | [e1] => (is_put (fst (is_remove st e1)) (f r e1), false)
+        | _ => (st, true)
+        end
+    end.
 
   Definition step (st : iset) (o : op) : iset * obs :=
     match o with
@@ -164,6 +183,27 @@ Section IndexedSet.
             | es => (is_put (is_remove_all st es) (from_row new), OErr false)
             end
         end
+    | OpMInsert r =>
+        match first_keyer with
+        | None => (st, OPanic)
+        | Some _ => let '(st', e) := m_change add_row st r in (st', OErr e)
+        end
+    | OpMDelete r =>
+        match first_keyer with
+        | None => (st, OPanic)
+        | Some _ => let '(st', e) := m_change delete_row st r in (st', OErr e)
+        end
+    | OpMUpdate old new =>      (* MultiDelete(old); on error return it; else MultiInsert(new) — the delete is NOT undone *)
+        match first_keyer with
+        | None => (st, OPanic)
+        | Some _ =>
+            let '(st1, e1) := m_change delete_row st old in
+            if e1 then (st1, OErr true)
+            else let '(st2, e2) := m_change add_row st1 new in (st2, OErr e2)
+        end
+    | OpTruncate => (is_clear st, OCount (is_count st))
+    | OpRows => (st, OBag (map row_view (is_visit st)))
+    | OpMRows => (st, OBag (flat_map rows_view (is_visit st)))
     end.
 
   Fixpoint exec (st : iset) (ops : list op) : iset * list obs :=
@@ -181,6 +221,16 @@ Section IndexedSet.
     if existsb (fun x => kideq x kid) keyers then filter (fun w => negb (has_key kid k w)) c else c.
   Definition s_get_many (c : list V) (kid : KId) (k : K) : list V :=
     if existsb (fun x => kideq x kid) keyers then filter (has_key kid k) c else [].
+
+  Definition s_change (f : R -> V -> V) (c : list V) (r : R) : list V * bool :=
+    match first_keyer with
+    | None => (c, false)
+    | Some k0 =>
+        match filter (has_key k0 (keyfn k0 (from_row r))) c with
+        | [e1] => (s_remove c e1 ++ [f r e1], false)
+        | _ => (c, true)
+        end
+    end.
 
   Definition sstep (c : list V) (o : op) : list V * obs :=
     match o with
@@ -214,6 +264,27 @@ Section IndexedSet.
             | _ => (filter (fun w => negb (has_key k0 (keyfn k0 e) w)) c ++ [from_row new], OErr false)
             end
         end
+    | OpMInsert r =>
+        match first_keyer with
+        | None => (c, OPanic)
+        | Some _ => let '(c', e) := s_change add_row c r in (c', OErr e)
+        end
+    | OpMDelete r =>
+        match first_keyer with
+        | None => (c, OPanic)
+        | Some _ => let '(c', e) := s_change delete_row c r in (c', OErr e)
+        end
+    | OpMUpdate old new =>
+        match first_keyer with
+        | None => (c, OPanic)
+        | Some _ =>
+            let '(c1, e1) := s_change delete_row c old in
+            if e1 then (c1, OErr true)
+            else let '(c2, e2) := s_change add_row c1 new in (c2, OErr e2)
+        end
+    | OpTruncate => ([], OCount (length c))
+    | OpRows => (c, OBag (map row_view c))
+    | OpMRows => (c, OBag (flat_map rows_view c))
     end.
 
   Fixpoint sexec (c : list V) (ops : list op) : list V * list obs :=
@@ -243,13 +314,36 @@ Section IndexedSet.
     end.
 
   Definition container_op (o : op) : bool :=
-    match o with OpInsert _ | OpDelete _ | OpUpdate _ _ => false | _ => true end.
+    match o with
+    | OpInsert _ | OpDelete _ | OpUpdate _ _ | OpMInsert _ | OpMDelete _ | OpMUpdate _ _ => false
+    | _ => true
+    end.
   Definition no_update (o : op) : bool :=
-    match o with OpUpdate _ _ => false | _ => true end.
+    match o with OpUpdate _ _ | OpMInsert _ | OpMDelete _ | OpMUpdate _ _ => false | _ => true end.
   Definition pk_safe_op (o : op) : bool :=
-    match o with OpPut _ | OpUpdate _ _ => false | _ => true end.
+    match o with OpPut _ | OpUpdate _ _ | OpMInsert _ | OpMDelete _ | OpMUpdate _ _ => false | _ => true end.
   Definition editor_op (o : op) : bool :=
     match o with OpInsert _ | OpDelete _ | OpUpdate _ _ | OpGet _ | OpGetMany _ _ | OpCount | OpVisit => true | _ => false end.
+
+  (* OperationLockingTableEditor: every Insert/Update/Delete runs under the table lock, so concurrent sessions are an
+     interleaving of whole operations; StatementLockingTableEditor holds the lock from StatementBegin to
+     StatementComplete, so they are an interleaving of whole statements (op lists).  [merge] builds the sequential
+     history of a schedule (a list of thread numbers): each turn takes the thread's next unit. *)
+  Fixpoint take_turn {A} (i : nat) (ths : list (list A)) : option A * list (list A) :=
+    match ths, i with
+    | [], _ => (None, [])
+    | [] :: rest, O => (None, [] :: rest)
+    | (u :: th) :: rest, O => (Some u, th :: rest)
+    | th :: rest, S i' => let '(u, rest') := take_turn i' rest in (u, th :: rest')
+    end.
+  Fixpoint merge {A} (sched : list nat) (ths : list (list A)) : list A :=
+    match sched with
+    | [] => []
+    | i :: sched' => match take_turn i ths with
+                     | (Some u, ths') => u :: merge sched' ths'
+                     | (None, ths') => merge sched' ths'
+                     end
+    end.
 
   (* observations agree: exactly, except VisitEntries (map iteration order) as bags *)
   Inductive obs_equiv : obs -> obs -> Prop :=
@@ -295,11 +389,18 @@ Definition mask_key (m : N) (v : val4) : val4 :=
 Definition mask_equals (em : N) (v w : val4) : bool := val4_eqb (mask_key em v) (mask_key em w).
 Definition row_to_val (r : row3) : val4 := let '(a, b, c) := r in (a, b, c, 0%N).
 Definition row_update (r : row3) (e : val4) : val4 := let '(a, b, c) := r in let '(_, _, _, t) := e in (a, b, c, t).
+(* multi rows: field c is a small bit set of sub-rows; AddRow sets the row's bits, DeleteRow clears them *)
+Definition row_add (r : row3) (e : val4) : val4 := let '(_, _, c) := r in let '(a, b, c0, t) := e in (a, b, N.lor c0 c, t).
+Definition row_del (r : row3) (e : val4) : val4 := let '(_, _, c) := r in let '(a, b, c0, t) := e in (a, b, N.ldiff c0 c, t).
+Definition row_of_val (v : val4) : val4 := let '(a, b, c, _) := v in (a, b, c, 0%N).
+Definition rows_of_val (v : val4) : list val4 :=
+  let '(a, b, c, _) := v in
+  ((if N.testbit c 0 then [(a, b, 1, 0)] else []) ++ (if N.testbit c 1 then [(a, b, 2, 0)] else []))%N.
 
 Definition op4 := @op val4 val4 N row3.
 Definition obs4 := @obs val4.
 Definition exec4 (em : N) (keyers : list N) : list op4 -> list (list (val4 * list val4)) * list obs4 :=
-  exec val4_eqb N.eqb (mask_equals em) mask_key row_to_val row_update keyers
+  exec val4_eqb N.eqb (mask_equals em) mask_key row_to_val row_update row_add row_del row_of_val rows_of_val keyers
        (is_init (V := val4) (K := val4) keyers).
 Definition sexec4 (em : N) (keyers : list N) : list op4 -> list val4 * list obs4 :=
-  sexec val4_eqb N.eqb (mask_equals em) mask_key row_to_val row_update keyers [].
+  sexec val4_eqb N.eqb (mask_equals em) mask_key row_to_val row_update row_add row_del row_of_val rows_of_val keyers [].
